@@ -57,7 +57,10 @@ Progs == <<
   \* 10 nested compute inside a child, breadth 0, missing breadth
   <<P(1), O("COM"), P(1), O("COM"), O("COME")>>,
   <<P(0), O("COM"), O("COME")>>,
-  <<O("COM")>>
+  <<O("COM")>>,
+  \* 13 short compute whose two children leave DIFFERENT one-word memories (join order observable
+  \*    within the quick gas bound: 2 + 2 * 4 = 10)
+  <<P(2), O("COM"), P(1), O("ALOC"), O("STO"), O("COME")>>
 >>
 
 Env0 == [contract |-> <<1, 2, 3, 4>>, predicate |-> <<5, 6, 7, 1>>, pdata |-> <<>>, pex |-> {},
